@@ -23,9 +23,9 @@ EXPLANATION = (
     "infiltration, evaporation, transpiration - is the literal 0, or control dependent on a test of the bund switch, "
     "or a decrease s - x control dependent on s > 0; hence without bunds the ponding stays 0. C03.c: a water-content cell "
     "that is set to a hydraulic bound (saturation, adjusted field capacity) takes the bound of the same compartment. C03.d: threshold locals feeding a store into compartment j are computed from compartment j's own hydraulic properties "
-    "(layer-change idiom for the net-irrigation refill). C03.e: no per-compartment array is subscripted with a layer number. C03.f: the field management "
+    "(layer-change idiom for the net-irrigation refill). C03.e: no per-compartment array is subscripted with a layer number. C03.g: a store to the ponding depth made with bunds present is the bund height, min(., bund height), guarded by a comparison with it, a decrease, or followed on every path by the overtopping cap. C03.f: the field management "
     "in force follows the growing-season flag (in-season object when True, fallow object when False; constant propagation with distinct abstract objects). NOT decided: "
-    "th >= th_dry and th <= th_s as numeric invariants, ponding <= bund height, Wr >= 0.")
+    "th >= th_dry and th <= th_s as numeric invariants, Wr >= 0.")
 
 BOUND_ATTRS = {"th_s", "th_fc_Adj", "th_fc"}
 
@@ -256,6 +256,62 @@ def _bounded_by_construction(prog, fi, flow, a, nid, t) -> Tuple[bool, str]:
     return False, "the increment is not bounded by construction either"
 
 
+def _pond_cap(chk, fi, flow, node, v, text, where):
+    """C03.g (ponding never exceeds the bund height): a store made with bunds present is the bund height itself, min(., bund height),
+    a value guarded by a comparison with the bund height, a decrease, or is followed on every path to the function exit by the
+    comparison `ponding > bund height` whose exceed-branch assigns the bund height."""
+    cfg = flow.cfg
+    tgt = node.targets[0]
+    tname = norm(tgt)
+    def is_bund(e):
+        return any((isinstance(x, ast.Attribute) and x.attr == "z_bund") or (isinstance(x, ast.Name) and "zbund" in x.id.lower().replace("_", "")) for x in ast.walk(e))
+    def is_bund_exact(x):
+        while isinstance(x, ast.Call) and isinstance(x.func, ast.Name) and x.func.id == "float" and x.args:
+            x = x.args[0]
+        if isinstance(x, ast.BinOp) and isinstance(x.op, ast.Mult) and isinstance(x.right, ast.Constant) and x.right.value == 1:
+            x = x.left
+        return (isinstance(x, ast.Attribute) and x.attr == "z_bund") or (isinstance(x, ast.Name) and "zbund" in x.id.lower().replace("_", ""))
+    nid = flow.stmt_node[id(node)]
+    e = v
+    while isinstance(e, ast.Call) and isinstance(e.func, ast.Name) and e.func.id == "float" and e.args:
+        e = e.args[0]
+    if isinstance(e, ast.BinOp) and isinstance(e.op, ast.Mult) and isinstance(e.right, ast.Constant) and e.right.value == 1:
+        e = e.left
+    if is_bund_exact(e):
+        chk.ok("C03.g", where, text, "the bund height itself")
+        return
+    if isinstance(e, ast.Call) and isinstance(e.func, ast.Name) and e.func.id == "min" and any(is_bund_exact(a) for a in e.args):
+        chk.ok("C03.g", where, text, "min(., bund height)")
+        return
+    if isinstance(e, ast.BinOp) and isinstance(e.op, ast.Sub) and norm(e.left) == tname:
+        chk.ok("C03.g", where, text, "decrease of the ponding")
+        return
+    # guarded: stored value compared with the bund height on the way (value <= bund height edge)
+    for t, l in cfg.transitive_control_deps(nid):
+        c = cfg.nodes[t].ast
+        if cfg.nodes[t].kind == "test" and isinstance(c, ast.Compare) and len(c.ops) == 1 and (is_bund_exact(c.left) or is_bund_exact(c.comparators[0])) and \
+                any(norm(x) == norm(e) for x in (c.left, c.comparators[0])):
+            gt = isinstance(c.ops[0], (ast.Gt, ast.GtE)) and norm(c.left) == norm(e)
+            lt = isinstance(c.ops[0], (ast.Lt, ast.LtE)) and norm(c.left) == norm(e)
+            if (gt and l is False) or (lt and l is True):
+                chk.ok("C03.g", where, text, f"only when `{norm(c)}` is {l}: the stored value does not exceed the bund height")
+                return
+    # followed by the cap on every path to the exit
+    caps = set()
+    for n in cfg.live_nodes():
+        c = n.ast
+        if n.kind == "test" and isinstance(c, ast.Compare) and len(c.ops) == 1 and isinstance(c.ops[0], ast.Gt) and norm(c.left) == tname and is_bund_exact(c.comparators[0]):
+            sets_ = [d for d in cfg.live_nodes() if isinstance(d.ast, ast.Assign) and norm(d.ast.targets[0]) == tname and is_bund_exact(d.ast.value)
+                     and (n.id, True) in cfg.control_deps().get(d.id, set())]
+            if sets_:
+                caps.add(n.id)
+    if caps and not cfg.paths_exist_avoiding(nid, cfg.exit, caps):
+        chk.ok("C03.g", where, text, "followed on every path by the comparison with the bund height whose exceed-branch assigns it")
+    else:
+        chk.violation("C03.g", where, text, "ponded water is stored behind bunds without being limited to the bund height (no cap on some path to the exit): "
+                      "ponding can exceed the bund height", loc=fi.loc(node))
+
+
 def rule_b(chk, prog):
     n = 0
     for roles in (init_roles(prog), step_roles(prog)):
@@ -301,6 +357,7 @@ def rule_b(chk, prog):
                 bund = bool(on_edges) and not cfg.reachable_without_edges(nid, on_edges)
                 if bund:
                     chk.ok("C03.b", where, text, "only when bunds are present (on every path)")
+                    _pond_cap(chk, fi, flow, node, v, text, where)
                     continue
                 # a value returned by a callee that itself satisfies the rule (infiltration / soil_evaporation results)
                 if isinstance(node, ast.Assign) and isinstance(node.value, ast.Call) and prog.resolve_call(fi, node.value) is not None:
